@@ -42,13 +42,15 @@ def build(c):
     steps += [["sub", "m", W.MT_FAILED_MESSAGE], ["sub", "m2", W.MT_FAILED_MESSAGE]]
     for i in range(k):
         steps.append(["sub", f"s{i}", ALL if c["suball"][i] else c["type"]])
+    if c.get("pub_sub"):
+        steps.append(["sub", "p", c["type"]])     # the publisher is a subscriber of its own type
     steps.append(["drain"])
     for i in c["rst"]:
         steps += [["close", f"s{i}", "rst"], ["await_closed", f"s{i}"]]
     dm = {"b": 0, "a": "@s0", "x": 77}[c["dest"]]
     for n in range(c.get("npub", 1)):
         steps.append(["pub", "p", c["type"], dm, 0, 16])
-        nw = [f"s{i}" for i in c["nw"]] + (["m"] if c["mon_nw"] else [])
+        nw = [f"s{i}" for i in c["nw"]] + (["m"] if c["mon_nw"] else []) + (["p"] if c.get("pub_sub") == "nw" else [])
         steps.append(["round", {"only": ["p"], "order": ["p"], "nw": nw, "adv": 0.001}])
     steps.append(["drain", {"adv": 0.001}])
     return steps
@@ -86,7 +88,8 @@ def gen_cases(tier, seed):
         k = rng.randint(1, 4)
         add(k=k, nw=[i for i in range(k) if rng.random() < 0.4], logger=[rng.random() < 0.3 for _ in range(k)],
             suball=[rng.random() < 0.3 for _ in range(k)], rst=[i for i in range(k) if rng.random() < 0.25],
-            dest=rng.choice("bbax"), type=rng.choice(types), mon_nw=rng.random() < 0.2, npub=rng.choice([1, 1, 2]))
+            dest=rng.choice("bbax"), type=rng.choice(types), mon_nw=rng.random() < 0.2, npub=rng.choice([1, 1, 2]),
+            pub_sub=rng.choice([None, None, None, "ok", "nw"]))
     # messages that originate from the manager itself (CLIENT_INFO after CLIENT_SET_NAME / MODULE_READY) and cannot
     # be handed to a subscriber
     for _ in range(300 if tier == "quick" else 6000):
@@ -238,6 +241,18 @@ def judge(sc, c):
     # per publication
     pubs = [p for p in sc.pubs.values() if p["by"] == "p" and p["must"] is not None]
     dm = {"b": 0, "a": sc.cl["s0"].mod_id, "x": 77}[c["dest"]]
+    if c.get("pub_sub") and c["dest"] == "b":
+        # the publisher subscribes to its own type: a recipient like any other, also when it is the one not ready
+        for p in pubs:
+            copies = sum(1 for f in rx["p"]["frames"] if f.pid == p["id"])
+            named = [n for n in notices[watcher] if n["dest_mod_id"] == pid_p and n["h_send_time"] == float(p["id"])]
+            C["publisher_is_subscriber_checked"] = C.get("publisher_is_subscriber_checked", 0) + 1
+            if c["pub_sub"] == "nw":
+                if copies == 0 and not named and c["type"] not in recursion_types:
+                    V.append({"mech": "silent_loss_not_writable", "detail": f"pub {p['id']} type {c['type']}: the publisher itself (mod {pid_p}) subscribes, was reported "
+                                                                            f"not writable, got 0 copies and no FAILED_MESSAGE names it at {watcher}"})
+            elif copies != 1:
+                V.append({"mech": "other_subscriber_missed", "detail": f"pub {p['id']} type {c['type']}: the publisher itself subscribes and got {copies} copies"})
     for p in pubs:
         for i in range(k):
             L = f"s{i}"
